@@ -85,10 +85,23 @@ def _extra_gen(rng, tier):
     return out
 
 
+# flush bodies (and tasks, items) failing with a BaseException that is not an Exception: the batch must still be
+# finished with that error, every item answered, the after event fired
+_BASE_ERR = [(1, dict(_base, name="base-errors", p_base_err=1.0, p_flush_raise=0.7, p_item_err=0.2, p_try=0.25))]
+_FLUSH_BASE_EXC = {
+    "roots": [[{"op": "try", "body": [{"op": "yield", "x": "x1", "s": {"tuple": [
+        {"new": {"item": [0, 1, {"set": 1}]}}, {"new": {"item": [0, 2, {"set": 2}]}}, {"new": {"item": [1, 3, {"set": 3}]}}]}}],
+        "x": "e1", "handler": [{"op": "yield", "x": "x2", "s": {"new": {"item": [1, 4, {"set": 4}]}}}]},
+        {"op": "return", "e": 0}]],
+    "params": {"kinds": {"0": {"raise": [1, 1002]}}, "base_errors": True},
+}
+
+
 def _extra_monitors(c, io, build):
     return machmon.analyse_flush_nesting(c, io) if _is_reentrant(c) else []
 
 
 mach.install(globals(), "C05", ("EvBefore", "EvFlush", "EvItemDone", "EvAfter", "EvIllegal"), ("C05:",), PROFILES,
-             n_quick=300, n_thorough=25000, nontrivial=_nontrivial, level="proof", corpus=[_KEPT_FLUSHED] + _REENTRANT,
-             impl_only=_is_reentrant, extra_gen=_extra_gen, extra_monitors=_extra_monitors)
+             n_quick=300, n_thorough=25000, nontrivial=_nontrivial, level="proof", corpus=[_KEPT_FLUSHED, _FLUSH_BASE_EXC] + _REENTRANT,
+             impl_only=_is_reentrant, extra_monitors=_extra_monitors,
+             extra_gen=mach.extra_all(_extra_gen, mach.extra_profiles(_BASE_ERR, 40, 3000)))
